@@ -86,6 +86,26 @@ func wireConst(p *Program, name string) (int64, bool) {
 }
 
 func checkC09(p *Program, r *Report) {
+	{
+		ef := NewEffects(p)
+		sharedStateRule(p, r, ef, "C09.shared", []string{"bloom/filter.go", "bloom/murmurhash3.go"})
+		r.Floor("C09.shared", 10)
+		// C09.pure: hashing, insertion and queries read the element, they never write it
+		for _, n := range []string{"MurmurHash3"} {
+			if fn := p.Func("bloom", n); fn != nil {
+				purityCheck(p, r, ef, "C09.pure", fn)
+			} else {
+				r.Unresolved("C09.pure", "bloom."+n)
+			}
+		}
+		for _, m := range p.Methods("bloom", "Filter") {
+			switch m.Name() {
+			case "Add", "AddHash", "AddOutPoint", "Matches", "MatchesOutPoint", "hash", "add", "matches":
+				purityCheckArgs(p, r, ef, "C09.pure", m)
+			}
+		}
+		r.Floor("C09.pure", 5)
+	}
 	r.Explain = "C09.monotone: every store into the filter's bit array is *a = *a | x (bits are only ever set). C09.agree: the function that sets bits and the function that " +
 		"tests them compute the byte index, the bit mask, the loop bound and the hash arguments as the same canonical terms; the two outpoint serialisers fill " +
 		"their buffers identically (hash at 0, little-endian index at 32). C09.formula: the bit number is MurmurHash3(i·0xFBA4C795 + tweak, item) mod (8·len(filter)). " +
